@@ -510,6 +510,7 @@ def run(ctx) -> None:
     r = run_command_complete(ctx, max(5, per_class // 3))
     run_unknown(ctx, ctx.n(200, 20000))
     run_data(ctx, ctx.n(400, 40000))
+    run_fuzz(ctx)
     ctx.extra['classes_registered'] = {
         'commands': len(hci.HCI_Command.command_classes),
         'events': len(hci.HCI_Event.event_classes),
@@ -528,6 +529,15 @@ def run(ctx) -> None:
 # ---------------------------------------------------------------------------
 def replay(ctx, case) -> None:
     """Re-check one packet given as bytes: reference-decode it, then run all clauses."""
+    if case.get('kind') == 'fuzz':
+        from vlib.fuzz import FuzzViolation
+
+        ctx.case(('replay', case['data']), True, {'replay'})
+        try:
+            fuzz_hci(case['data'])
+        except FuzzViolation as v:
+            ctx.fail(v.signature, v.what, case)
+        return
     packet = case['packet']
     t = packet[0]
     ctx.case(('replay', packet), True, {'replay'})
@@ -590,3 +600,70 @@ def _replay_data(ctx, case, packet):
         p = hci.HCI_Packet.from_bytes(packet)
         if bytes(p) != packet:
             ctx.fail(f'reencode/{type(p).__name__}', 'differs', case)
+
+
+# ---------------------------------------------------------------------------
+# atheris target (thorough tier): normalisation idempotence on arbitrary bytes
+# ---------------------------------------------------------------------------
+def _rebuild(p):
+    cls = type(p)
+    if cls is hci.HCI_Command:
+        return hci.HCI_Command(p.parameters, op_code=p.op_code)
+    if cls is hci.HCI_Event:
+        return hci.HCI_Event(p.parameters, event_code=p.event_code)
+    if cls is hci.HCI_LE_Meta_Event:
+        return hci.HCI_LE_Meta_Event(subevent_code=p.subevent_code, parameters=p.parameters)
+    if cls is hci.HCI_AclDataPacket:
+        return cls(p.connection_handle, p.pb_flag, p.bc_flag, p.data_total_length, p.data)
+    if cls is hci.HCI_SynchronousDataPacket:
+        return cls(p.connection_handle, p.packet_status, p.data_total_length, p.data)
+    if cls is hci.HCI_IsoDataPacket:
+        return cls(connection_handle=p.connection_handle, data_total_length=p.data_total_length,
+                   iso_sdu_fragment=p.iso_sdu_fragment, pb_flag=p.pb_flag, time_stamp=p.time_stamp,
+                   packet_sequence_number=p.packet_sequence_number, iso_sdu_length=p.iso_sdu_length,
+                   packet_status_flag=p.packet_status_flag)
+    return cls(**{n: getattr(p, n) for n in names_of(cls)})
+
+
+def fuzz_hci(data: bytes) -> None:
+    """Arbitrary bytes are not known to be well-formed, so only normalisation idempotence is
+    asserted: if parse(b) succeeds, b1 = bytes(rebuild(parse(b))) must parse to the same class
+    and field values, and re-serialise to b1 again (a fixed point after one step)."""
+    from vlib.fuzz import FuzzViolation
+
+    try:
+        p = hci.HCI_Packet.from_bytes(bytes(data))
+    except Exception:
+        return
+    if isinstance(p, hci.HCI_CustomPacket):
+        return
+    try:
+        b1 = bytes(_rebuild(p))
+    except Exception:
+        return  # parsed values that cannot be re-serialised (out of the well-formed domain)
+    try:
+        p2 = hci.HCI_Packet.from_bytes(b1)
+        b2 = bytes(_rebuild(p2))
+    except Exception as e:
+        raise FuzzViolation(f'fuzz/normalised_not_parseable/{type(p).__name__}', f'{b1.hex()}: {e!r}')
+    if type(p2) is not type(p):
+        raise FuzzViolation(f'fuzz/class_changes/{type(p).__name__}', f'{b1.hex()} parses as {type(p2).__name__}')
+    if b2 != b1:
+        raise FuzzViolation(f'fuzz/not_idempotent/{type(p).__name__}', f'{b1.hex()} -> {b2.hex()}')
+
+
+def run_fuzz(ctx) -> None:
+    from vlib import fuzz
+
+    if ctx.quick or ctx.shard >= 4:
+        return
+    seeds = [
+        bytes.fromhex('01030c00'), bytes.fromhex('040e0401030c00'), bytes.fromhex('043e13010001000001f0f1f2f3f4f50600000048000'[:42]),
+        bytes.fromhex('0201200600020004000a03'), bytes.fromhex('05012008000100000002000180'),
+    ] if ctx.shard % 2 == 0 else []  # odd shards start from an empty corpus
+    r = fuzz.campaign(ctx, 'checks.c01_hci_codec', 'fuzz_hci', runs=400000, max_len=300, seeds=seeds,
+                      name=f'hci_s{ctx.shard}')
+    ctx.extra.setdefault('fuzz', {})[f'shard{ctx.shard}'] = {k: r[k] for k in ('status', 'executions')}
+    ctx.extra['sum_fuzz_executions'] = ctx.extra.get('sum_fuzz_executions', 0) + r['executions']
+    for sig, what, data in r['crashes']:
+        ctx.fail(sig, what, {'kind': 'fuzz', 'data': data})
